@@ -71,7 +71,10 @@ def handle (req : Json) : Except String Json := do
     let q ← b.getArr?
     return ((q[0]!.getInt?).toOption, (q[1]!.getInt?).toOption)
   let bodies ← (← getArr case "bodies").toList.mapM fun b => do (← b.getArr?).toList.mapM parseStmt
-  let cfg : Cfg := { bounds := bounds, bodies := bodies }
+  let events := match case.getObjVal? "events" with
+    | .ok (.arr a) => a.toList.filterMap (fun j => j.getNat?.toOption)
+    | _ => []
+  let cfg : Cfg := { bounds := bounds, bodies := bodies, events := events }
   let vals ← (← getArr case "init").toList.mapM (·.getInt?)
   let regs ← (← getArr case "watchers").toList.mapM parseWatcher
   let prog ← (← getArr case "program").toList.mapM parseStmt
